@@ -1,6 +1,6 @@
 (* C19: the hypotheses of the theorems are satisfiable, and the model computes what one expects on small inputs. *)
 From Coq Require Import ZArith List Bool.
-From C19 Require Import Model ProofsBase ProofsInt ProofsRat ProofsElt ProofsPoly ProofsDest ProofsPair ProofsBuf ProofsHex ProofsMore.
+From C19 Require Import Model ProofsBase ProofsInt ProofsRat ProofsElt ProofsPoly ProofsDest ProofsPair ProofsBuf ProofsHex ProofsMore ProofsNoCxx.
 Import ListNotations.
 Local Open Scope Z_scope.
 
@@ -68,3 +68,6 @@ Example ex_hex_tail : head_nonxdigit 16 [32; 49] /\ head_nonxdigit 16 [103] /\ h
 Proof. repeat split. Qed.
 Example ex_unreduced : rat_read (from_chars (rat_write (2, 4))) = (Some (1, 2), mkS [] true false) /\ same_value (2, 4) (1, 2).
 Proof. split; vm_compute; reflexivity. Qed.
+Example ex_table_ok : table_ok pow10_table. Proof. exact pow10_table_ok. Qed.
+Example ex_nocxx : Integer_in_nocxx pow10_table (from_chars [45; 32; 53; 120]) 7 = Some (-5, mkS [120] false false).   (* "- 5x" *)
+Proof. vm_compute. reflexivity. Qed.
